@@ -34,6 +34,12 @@ Encode(batch, CodeOf(_), L) ==
   FlattenSeq([i \in 1..Len(batch) |-> Record(EV_KEY, CodeOf(batch[i].k), IF batch[i].t = "P" THEN 1 ELSE 0, L)])
   \o Record(EV_SYN, 0, 0, L)
 
+\* The statement fixes the record size and the type, code and value of every record; it says nothing about the time stamp in front
+\* of them (the kernel overwrites it). Two byte strings are the same records when they agree in length and in those three fields.
+InField(o, L) == (o >= L.off_type /\ o < L.off_type + 2) \/ (o >= L.off_code /\ o < L.off_code + 2) \/ (o >= L.off_value /\ o < L.off_value + 4)
+SameRecords(bytes, exp, L) == /\ Len(bytes) = Len(exp)
+                              /\ \A i \in 1..Len(exp): InField((i - 1) % L.size, L) => bytes[i] = exp[i]
+
 \* the records of a batch, as <<type, code, value>> triples (what a reader on the other end sees)
 RecordsOf(batch, CodeOf(_)) ==
   [i \in 1..Len(batch) |-> <<EV_KEY, CodeOf(batch[i].k), IF batch[i].t = "P" THEN 1 ELSE 0>>] \o << <<EV_SYN, 0, 0>> >>
